@@ -378,13 +378,19 @@ func (r *Rig) goCall(c *RigClient, kind, tok string, plan Plan, preCancelled boo
 		case "call":
 			p.Res, p.Err = c.C.Call(ctx, tok, plan)
 		case "retry":
-			p.Res, p.Err = c.C.Retry(ctx, tok, plan)
+			if plan.NoCtx {
+				p.Res, p.Err = c.C.RetryNoCtx(tok, plan)
+			} else {
+				p.Res, p.Err = c.C.Retry(ctx, tok, plan)
+			}
 		case "notify":
 			if plan.ViaSub {
 				p.Err = c.C.NotifySub(ctx, tok, plan)
 			} else {
 				p.Err = c.C.Notify(ctx, tok, plan)
 			}
+			// the usual `defer cancel()` of a caller: the context ends as soon as the notification has been handed over
+			cancel()
 		case "noctx":
 			p.Res, p.Err = c.C.NoCtx(tok, plan)
 		case "sub":
